@@ -141,6 +141,8 @@ impl AtomicBuffer {
     #[inline]
     pub fn get<T: Copy>(&self, position: Index) -> T {
         self.bounds_check(position, std::mem::size_of::<T>() as Index);
+        #[cfg(kani)]
+        let _vh = crate::verif_kani::hook::read(self.ptr, position, std::mem::size_of::<T>(), crate::verif_kani::hook::PLAIN);
         unsafe { (self.at(position) as *mut T).read_unaligned() }
     }
 
@@ -164,6 +166,11 @@ impl AtomicBuffer {
     #[inline]
     pub fn set_memory(&self, position: Index, len: Index, value: u8) {
         self.bounds_check(position, len);
+        #[cfg(kani)]
+        let _vh = match crate::verif_kani::hook::write(self.ptr, position, len as usize, crate::verif_kani::hook::PLAIN) {
+            Some(g) => g,
+            None => return,
+        };
         let slice = unsafe { slice::from_raw_parts_mut(self.ptr.offset(position as isize), len as usize) };
 
         // poor man's memcp
@@ -175,6 +182,8 @@ impl AtomicBuffer {
     #[inline]
     pub fn get_volatile<T: Copy>(&self, position: Index) -> T {
         self.bounds_check(position, std::mem::size_of::<T>() as Index);
+        #[cfg(kani)]
+        let _vh = crate::verif_kani::hook::read(self.ptr, position, std::mem::size_of::<T>(), crate::verif_kani::hook::ACQUIRE);
         let read = self.get(position);
         fence(Ordering::Acquire);
         read
@@ -183,6 +192,11 @@ impl AtomicBuffer {
     #[inline]
     pub fn put_ordered<T>(&self, position: Index, val: T) {
         self.bounds_check(position, std::mem::size_of::<T>() as Index);
+        #[cfg(kani)]
+        let _vh = match crate::verif_kani::hook::write(self.ptr, position, std::mem::size_of::<T>(), crate::verif_kani::hook::RELEASE) {
+            Some(g) => g,
+            None => return,
+        };
         fence(Ordering::Release);
         self.put(position, val);
     }
@@ -190,6 +204,11 @@ impl AtomicBuffer {
     #[inline]
     pub fn put<T>(&self, position: Index, val: T) {
         self.bounds_check(position, std::mem::size_of::<T>() as Index);
+        #[cfg(kani)]
+        let _vh = match crate::verif_kani::hook::write(self.ptr, position, std::mem::size_of::<T>(), crate::verif_kani::hook::PLAIN) {
+            Some(g) => g,
+            None => return,
+        };
         unsafe { (self.at(position) as *mut T).write_unaligned(val) }
     }
 
@@ -197,6 +216,11 @@ impl AtomicBuffer {
     #[allow(clippy::cast_ptr_alignment)]
     pub fn put_atomic_i64(&self, offset: Index, val: i64) {
         self.bounds_check(offset, I64_SIZE);
+        #[cfg(kani)]
+        let _vh = match crate::verif_kani::hook::write(self.ptr, offset, 8, crate::verif_kani::hook::RMW) {
+            Some(g) => g,
+            None => return,
+        };
         unsafe {
             let atomic_ptr = self.at(offset) as *const AtomicI64;
             (*atomic_ptr).store(val, Ordering::SeqCst);
@@ -207,6 +231,11 @@ impl AtomicBuffer {
     #[allow(clippy::cast_ptr_alignment)]
     pub fn compare_and_set_i32(&self, position: Index, expected: i32, update: i32) -> bool {
         self.bounds_check(position, I32_SIZE);
+        #[cfg(kani)]
+        let _vh = match crate::verif_kani::hook::write(self.ptr, position, 4, crate::verif_kani::hook::RMW) {
+            Some(g) => g,
+            None => return true,
+        };
         unsafe {
             let ptr = self.at(position) as *const AtomicI32;
             (*ptr)
@@ -219,6 +248,11 @@ impl AtomicBuffer {
     #[allow(clippy::cast_ptr_alignment)]
     pub fn compare_and_set_i64(&self, position: Index, expected: i64, update: i64) -> bool {
         self.bounds_check(position, I64_SIZE);
+        #[cfg(kani)]
+        let _vh = match crate::verif_kani::hook::write(self.ptr, position, 8, crate::verif_kani::hook::RMW) {
+            Some(g) => g,
+            None => return true,
+        };
         unsafe {
             let ptr = self.at(position) as *const AtomicI64;
             (*ptr)
@@ -235,6 +269,11 @@ impl AtomicBuffer {
      */
     pub fn add_i64_ordered(&self, offset: Index, delta: i64) {
         self.bounds_check(offset, I64_SIZE);
+        #[cfg(kani)]
+        let _vh = match crate::verif_kani::hook::write(self.ptr, offset, 8, crate::verif_kani::hook::RELEASE) {
+            Some(g) => g,
+            None => return,
+        };
 
         let value = self.get::<i64>(offset);
         self.put_ordered::<i64>(offset, value + delta);
@@ -244,6 +283,11 @@ impl AtomicBuffer {
     #[inline]
     pub fn put_bytes(&self, offset: Index, src: &[u8]) {
         self.bounds_check(offset, src.len() as Index);
+        #[cfg(kani)]
+        let _vh = match crate::verif_kani::hook::write(self.ptr, offset, src.len(), crate::verif_kani::hook::PLAIN) {
+            Some(g) => g,
+            None => return,
+        };
 
         unsafe {
             let ptr = self.ptr.offset(offset as isize);
@@ -255,6 +299,8 @@ impl AtomicBuffer {
     pub fn get_bytes<T>(&self, offset: Index, dest: &mut T) {
         let length = std::mem::size_of::<T>();
         self.bounds_check(offset, length as Index);
+        #[cfg(kani)]
+        let _vh = crate::verif_kani::hook::read(self.ptr, offset, length, crate::verif_kani::hook::PLAIN);
 
         unsafe {
             let ptr = self.at(offset);
@@ -271,6 +317,11 @@ impl AtomicBuffer {
     pub fn copy_from(&self, offset: Index, src_buffer: &AtomicBuffer, src_offset: Index, length: Index) {
         self.bounds_check(offset, length);
         src_buffer.bounds_check(src_offset, length);
+        #[cfg(kani)]
+        let _vh = match crate::verif_kani::hook::write(self.ptr, offset, length as usize, crate::verif_kani::hook::PLAIN) {
+            Some(g) => g,
+            None => return,
+        };
         unsafe {
             let src_ptr = src_buffer.at(src_offset);
             let dest_ptr = self.at(offset);
@@ -353,6 +404,11 @@ impl AtomicBuffer {
     #[allow(clippy::cast_ptr_alignment)]
     pub fn get_and_add_i64(&self, offset: Index, delta: i64) -> i64 {
         self.bounds_check(offset, I64_SIZE);
+        #[cfg(kani)]
+        let _vh = match crate::verif_kani::hook::write(self.ptr, offset, 8, crate::verif_kani::hook::RMW) {
+            Some(g) => g,
+            None => return unsafe { (self.at(offset) as *const i64).read_unaligned() },
+        };
         unsafe {
             let atomic_ptr = self.at(offset) as *const AtomicI64;
             (*atomic_ptr).fetch_add(delta, Ordering::SeqCst)
